@@ -1469,3 +1469,104 @@ Example ex_interior_conclusion :
   point_meta ex_grid 1 1 3000 3000 2 = (1, 1, 2) /\
   In (1, 1, 2) (procs (geo_walk ex_grid 1 1 (cov_bboxes [ex_cov]) 0 [0; 1; 2] ex_cov None)).
 Proof. vm_compute. split; [reflexivity|]. tauto. Qed.
+
+(* ------------------------------------------------------------------ what is handed over with a meta tile *)
+
+Lemma in_somes {A} (a : A) l : In a (somes l) <-> In (Some a) l.
+Proof.
+  induction l as [|[b|] l IH]; cbn [somes In]; [tauto| |].
+  - rewrite IH. split; intros [H|H]; auto; left; congruence.
+  - rewrite IH. split; [auto|intros [H|H]; [discriminate|auto]].
+Qed.
+
+Lemma in_zrange v a b : In v (zrange a b) <-> a <= v <= b.
+Proof.
+  unfold zrange. rewrite in_map_iff. split.
+  - intros (k & <- & Hk). apply in_seq in Hk. lia.
+  - intros H. exists (Z.to_nat (v - a)). split; [lia|]. apply in_seq. lia.
+Qed.
+
+Lemma in_create_tile_list c xs ys l gs :
+  In (Some c) (create_tile_list xs ys l gs) <->
+  exists x y, In x xs /\ In y ys /\ c = (x, y, l) /\ 0 <= x < fst gs /\ 0 <= y < snd gs.
+Proof.
+  unfold create_tile_list. rewrite in_flat_map. split.
+  - intros (y & Hy & Hin). apply in_map_iff in Hin. destruct Hin as (x & Hx & Hxs).
+    unfold tile_or_none in Hx.
+    destruct ((x <? 0) || (y <? 0) || (fst gs <=? x) || (snd gs <=? y)) eqn:E; [discriminate|].
+    injection Hx as <-. rewrite !orb_false_iff, !Z.ltb_ge, !Z.leb_gt in E. exists x, y. repeat split; tauto || lia.
+  - intros (x & y & Hx & Hy & -> & Hbx & Hby). exists y. split; [exact Hy|]. apply in_map_iff. exists x. split; [|exact Hx].
+    unfold tile_or_none.
+    replace ((x <? 0) || (y <? 0) || (fst gs <=? x) || (snd gs <=? y)) with false; [reflexivity|].
+    symmetry. rewrite !orb_false_iff, !Z.ltb_ge, !Z.leb_gt. lia.
+Qed.
+
+(* without handle_all the list handed over with subtile t consists exactly of the tiles of the grid that belong to the
+   meta tile of t and pass the filter (not cached / stale) *)
+Lemma handed_tiles_spec g msx msy keep tx ty l c :
+  In c (handed_tiles g msx msy false keep (tx, ty, l)) <->
+  exists x y,
+    c = (x, y, l) /\ keep c = true /\
+    (let '(sx, sy) := meta_size g msx msy l in
+     tx / sx * sx <= x <= tx / sx * sx + sx - 1 /\ ty / sy * sy <= y <= ty / sy * sy + sy - 1) /\
+    (let '(nx, ny) := grid_size g l in 0 <= x < nx /\ 0 <= y < ny).
+Proof.
+  unfold handed_tiles. rewrite filter_In, in_somes. unfold meta_tile_list.
+  destruct (meta_size g msx msy l) as [sx sy]. destruct (grid_size g l) as [nx ny] eqn:Eg.
+  rewrite in_create_tile_list. cbn [fst snd]. split.
+  - intros [(x & y & Hx & Hy & -> & Hbx & Hby) Hk]. exists x, y. apply in_zrange in Hx.
+    assert (Hy' : ty / sy * sy <= y <= ty / sy * sy + sy - 1).
+    { destruct (ul g); [|apply in_rev in Hy]; apply in_zrange in Hy; exact Hy. }
+    repeat split; tauto || lia.
+  - intros (x & y & -> & Hk & [Hx Hy] & Hbx & Hby). split; [|exact Hk]. exists x, y.
+    split; [apply in_zrange; exact Hx|]. split; [|repeat split; lia].
+    destruct (ul g); [|apply -> in_rev]; apply in_zrange; exact Hy.
+Qed.
+
+Fixpoint oprocs (l : list oevent) : list coord :=
+  match l with
+  | [] => []
+  | OProc ts :: r => ts ++ oprocs r
+  | _ :: r => oprocs r
+  end.
+
+(* the single tiles in the observable trace are the handed-over members of the meta tiles of the walk *)
+Lemma oprocs_observe g msx msy hall keep evs :
+  oprocs (observe g msx msy hall keep evs) = handed_all g msx msy hall keep evs.
+Proof.
+  unfold handed_all. induction evs as [|[t|lv id|] r IH]; cbn [observe procs flat_map oprocs]; try assumption; [reflexivity|].
+  destruct (handed_tiles g msx msy hall keep t) as [|a ts] eqn:E; cbn [oprocs app]; rewrite IH; reflexivity.
+Qed.
+
+Lemma handed_all_incl g msx msy hall keep a b :
+  incl (procs a) (procs b) -> incl (handed_all g msx msy hall keep a) (handed_all g msx msy hall keep b).
+Proof.
+  unfold handed_all. intros H x Hx. apply in_flat_map in Hx. destruct Hx as (t & Ht & Hx).
+  apply in_flat_map. exists t. auto.
+Qed.
+
+Lemma handed_all_app_procs g msx msy hall keep a b c :
+  incl (procs a) (procs b ++ procs c) ->
+  incl (handed_all g msx msy hall keep a) (handed_all g msx msy hall keep b ++ handed_all g msx msy hall keep c).
+Proof.
+  unfold handed_all. intros H x Hx. apply in_flat_map in Hx. destruct Hx as (t & Ht & Hx).
+  apply H in Ht. apply in_app_or in Ht. apply in_or_app.
+  destruct Ht as [Ht|Ht]; [left|right]; apply in_flat_map; exists t; auto.
+Qed.
+
+(* resume_covers on the single tiles that are handed over (cache content fixed during the history) *)
+Lemma resume_covers_handed_lemma g msx msy cov skipk levels root k j lv id hall keep :
+  geo_wf g msx msy -> levels_wf g levels -> levels <> [] ->
+  nth_error (geo_walk g msx msy cov skipk levels root None) j = Some (ERep lv id) -> (j < k)%nat ->
+  incl (handed_all g msx msy hall keep (geo_walk g msx msy cov skipk levels root None))
+       (handed_all g msx msy hall keep (firstn k (geo_walk g msx msy cov skipk levels root None)) ++
+        handed_all g msx msy hall keep (geo_walk g msx msy cov skipk levels root id)).
+Proof.
+  intros Hwf Hl Hne Hn Hjk. apply handed_all_app_procs. eapply resume_covers_geo_lemma; eauto.
+Qed.
+
+Example ex_handed :
+  handed_tiles ex_grid 2 2 false (fun _ => true) (0, 0, 2) = [(0, 1, 2); (1, 1, 2); (0, 0, 2); (1, 0, 2)] /\
+  handed_tiles ex_grid 2 2 false (fun t => negb (coord_eqb t (0, 0, 2))) (0, 0, 2) = [(0, 1, 2); (1, 1, 2); (1, 0, 2)] /\
+  handed_tiles ex_grid 2 2 true (fun _ => false) (0, 0, 2) = [(0, 0, 2)].
+Proof. vm_compute. auto. Qed.
